@@ -341,6 +341,18 @@ Theorem C13_force_fresh : forall force o ci,
 Proof. exact force_fresh_thm. Qed.
 Print Assumptions C13_force_fresh.
 
+(* compress_spikes_dtypes on a bare directory (the route the comparator's InCompress cases judge): when it returns, the
+   directory has the same names, every file is itself or -- if one of the two globs selects it -- its uint16 cast, exactly
+   the FIRST match of 'spikes.templates.*npy' is cast, and a match of 'spikes.clusters.*npy' is cast.  With
+   C13_u16_values: ids below 65536 are unchanged. *)
+Theorem C13_compress : forall fs out, fst (compress_model fs) = Some out ->
+  Forall2 cimage fs out /\
+  (exists a t b, fs = a ++ t :: b /\ glob1 "spikes.templates." "npy" (fst t) = true /\
+                 (forall x, In x a -> glob1 "spikes.templates." "npy" (fst x) = false) /\ In (fst t, to_u16 (snd t)) out) /\
+  (exists c, In c fs /\ glob1 "spikes.clusters." "npy" (fst c) = true /\ In (fst c, to_u16 (snd c)) out).
+Proof. exact compress_thm. Qed.
+Print Assumptions C13_compress.
+
 (* the linear uuid checker the comparator runs on 65536 identifiers is the checker of C13_uuids_checker *)
 Theorem C13_uuids_fast : forall n ids, uuids_fast n ids = uuids_b n ids.
 Proof. exact uuids_fast_eq. Qed.
@@ -489,5 +501,13 @@ Proof. vm_compute. repeat split. Qed.
 (* ---- the fast uuid checker and the printers of Fast.v ---- *)
 Example C13_ex_fast :
   uuids_fast 4 (zrange 4) = true /\ uuids_fast 4 [0; 1; 1; 2] = false /\ uuids_fast 3 [2; 0; 1] = true /\ uuids_fast 3 (zrange 4) = false /\
-  zrange 4 = [0; 1; 2; 3] /\ rle [(2, [TNaN; TNum 1 0]); (1, [TNum 0 0])] = [TNaN; TNum 1 0; TNaN; TNum 1 0; TNum 0 0].
+  zrange 4 = [0; 1; 2; 3] /\ rle [(2, [TNaN; TNum 1 0]); (1, [TNum 0 0])] = [TNaN; TNum 1 0; TNaN; TNum 1 0; TNum 0 0] /\
+  (* compress on a bare directory: first match only, decoy untouched; a missing clusters file = StopIteration AFTER the templates were cast *)
+  compress_model [("spikes.templatesX.npy", mkarr DI32 [1] [tz 70000]); ("spikes.templates.a.npy", mkarr DI32 [2] [tz 65535; tz 65536]);
+                  ("spikes.clusters.a.npy", mkarr DI64 [1] [tz (-1)])] =
+    (Some [("spikes.templatesX.npy", mkarr DI32 [1] [tz 70000]); ("spikes.templates.a.npy", mkarr DU16 [2] [tz 65535; tz 0]);
+           ("spikes.clusters.a.npy", mkarr DU16 [1] [tz 65535])],
+     [("spikes.templatesX.npy", mkarr DI32 [1] [tz 70000]); ("spikes.templates.a.npy", mkarr DU16 [2] [tz 65535; tz 0]);
+      ("spikes.clusters.a.npy", mkarr DU16 [1] [tz 65535])]) /\
+  compress_model [("spikes.templates.npy", mkarr DI32 [1] [tz 3])] = (None, [("spikes.templates.npy", mkarr DU16 [1] [tz 3])]).
 Proof. vm_compute. repeat split. Qed.
